@@ -140,11 +140,11 @@ def wrap(body_lines):
 
 
 def run(chk):
-    chk.cov["rule"] = ("programs = init block + one analysed loop (12 flavours: affine / integer division / MOD / index "
-                       "arrays / d_<var> names / loop nests / scalar patterns / stale subscripts / mixed); a case is "
-                       "non-trivial if the loop body writes an array or scalar that is also accessed elsewhere in the "
-                       "body or by another iteration's statement, i.e. the real analysis ran at least one pairwise or "
-                       "scalar test (always true for generated loops); distinct by source text")
+    chk.cov["rule"] = ("programs = init block + one analysed loop `do i` (flavours: affine / integer division / MOD / index "
+                       "arrays / d_<var> names / loop nests / scalar patterns / stale subscripts / mixed; bodies of 1-3 "
+                       "statements, optional IF and inner `do j`); every generated loop writes an array element or a scalar, "
+                       "so the real analysis runs at least one pairwise array test or one scalar test: all judged cases "
+                       "are non-trivial except loops the real analysis refuses with an exception; distinct by source text")
     chk.assumptions += [
         "MiniF semantics (integer stores, unbounded arrays) stands for Fortran on the generated programs",
         "exemption = C08.privScalar (statically: first access on every path is an unconditional write; a DO statement "
@@ -219,6 +219,18 @@ def run(chk):
             chk.known(e["what"])
 
 
+def _new_failure(res):
+    """the failure of `res` unless it belongs to a known finding (classifier accepts it and the model agrees)"""
+    f = res.get("failure")
+    if not f:
+        return None
+    known = {e["id"] for e in common.known_findings("C08")}
+    if f["kind"] == "loop-carried-dependence" and res["model"]["par"] and set(f.get("classes", [])) & known:
+        print("(this input fails the property, but belongs to known finding", sorted(set(f["classes"]) & known), ")")
+        return None
+    return f
+
+
 def replay(payload):
     src = payload.get("source")
     if src is None:      # a broken correspondence without a failing input: re-run the disagreeing case
@@ -227,10 +239,22 @@ def replay(payload):
         except (KeyError, IndexError, TypeError):
             print("replay file holds no input (broken proof obligation):", payload.get("broken"))
             return 1
+        res = evaluate(src)
+        print(src)
+        print("real:", res.get("real"), "\nmodel:", res.get("model"))
+        if _new_failure(res):
+            print("property FAILS on this input:", res["failure"])
+            return 1
+        if res["model"]["frag"] and res.get("agree") is False:
+            print("observed: real verdict/messages differ from the model | expected: agreement (no input found on which "
+                  "the property itself fails)")
+            return 1
+        print("real code and model agree on this input")
+        return 0
     res = evaluate(src)
     print(src)
     print("real:", res.get("real"), "\nmodel:", res.get("model"))
-    f = res.get("failure")
+    f = _new_failure(res)
     if f:
         print("observed:", f["observed"], "| expected:", f["expected"],
               "|", {k: v for k, v in f.items() if k not in ("observed", "expected")})
